@@ -6,6 +6,7 @@ From Coq Require Import String Ascii List NArith.
 From Coq Require Import Strings.Byte.
 From GoBT Require Import lib.Bytes lib.Hex lib.Str lib.Sha256 lib.Ripemd160 lib.Numeral lib.Base58.
 From GoBT Require Import model.Bip276 model.Address spec.Base58Check proofs.AddressProofs.
+From GoBT Require lib.Checked model.Push model.Classify proofs.AuditD15.
 Import ListNotations.
 
 (** Base58 (go-bk, as coded): decode inverts encode on EVERY byte list (leading zero bytes <-> leading '1's) *)
@@ -116,7 +117,11 @@ Theorem C15_from_address_script : forall addr s, p2pkh_from_address addr = Ok s 
 Proof. exact p2pkh_from_address_ok. Qed.
 Print Assumptions C15_from_address_script.
 
-(** the indexing expressions of the modelled functions never go out of range *)
+(** the indexing expressions of the modelled functions never go out of range.
+    (Largely by construction of model/Address.v: its accesses are totalised ([nth _ _ x00], unchecked
+    [slice]) and [Panic] only appears at three hand-placed branches. The statement with checked
+    primitives for PublicKeyHash is C14_inspect_no_panic; [C15_public_key_hash_models_agree] below
+    shows the two models of PublicKeyHash compute the same.) *)
 Theorem C15_no_panic : forall (s : bytes) (addr : string),
   valid_a58 s <> Panic /\ address_to_pkh_str addr <> Panic /\
   public_key_hash s <> Panic /\ public_key_hash s <> Err EFuel.
@@ -125,6 +130,60 @@ Proof.
   apply public_key_hash_no_panic.
 Qed.
 Print Assumptions C15_no_panic.
+
+(** THE SAFE USAGE PATTERN (audit D). Building a script does not verify the checksum (refuted above), but an
+    address that ValidateAddress accepts builds the locking script of exactly the hash its checksum
+    protects, and NewAddressFromString returns that hash *)
+Theorem C15_validated_address_builds_checked_script : forall addr,
+  has_prefix "bitcoin-script:" addr = false -> validate_address addr = true ->
+  exists v h, supported_version v /\ List.length h = 20%nat /\ bytes_of_string addr = base58check v h /\
+    p2pkh_from_address addr = Ok (p2pkh_script h) /\
+    new_address_from_string addr = Ok (mkAddress addr (hex_of h)).
+Proof. exact AuditD15.validated_address_builds_checked_script. Qed.
+Print Assumptions C15_validated_address_builds_checked_script.
+
+(** two different (network, hash) pairs never share an address string *)
+Theorem C15_address_injective : forall h h' m m', List.length h = 20%nat -> List.length h' = 20%nat ->
+  a_string (new_address_from_pkh h m) = a_string (new_address_from_pkh h' m') -> h = h' /\ m = m'.
+Proof. exact AuditD15.address_injective. Qed.
+Print Assumptions C15_address_injective.
+
+(** the constructors that take hex strings agree with the ones that take bytes *)
+Theorem C15_p2pkh_from_pubkey_str : forall k, List.length k = 33%nat ->
+  p2pkh_from_pubkey_str (hex_of k) = Ok (p2pkh_script (hash160 k)).
+Proof. exact AuditD15.p2pkh_from_pubkey_str_spec. Qed.
+Print Assumptions C15_p2pkh_from_pubkey_str.
+Theorem C15_new_address_from_public_key_string : forall k mainnet,
+  new_address_from_public_key_string (hex_of k) mainnet = Ok (new_address_from_public_key k mainnet).
+Proof. exact AuditD15.new_address_from_public_key_string_spec. Qed.
+Print Assumptions C15_new_address_from_public_key_string.
+
+(** ONE MODEL, NOT TWO (audit D). model/Address.v has its own copies of DecodeParts, PublicKeyHash, IsP2PKH and
+    PushDataPrefix; C13 / C14 are proved about the copies in model/Push.v and model/Classify.v. The
+    copies compute the same on every input: same verdict, same parts / hash / boolean / prefix *)
+Theorem C15_decode_parts_models_agree : forall b,
+  match Push.decode_parts b, decode_parts b with
+  | Push.DOk l, Ok l' => l = l'
+  | Push.DErr _, Err EDataTooSmall => True
+  | _, _ => False
+  end.
+Proof. exact AuditD15.decode_models_agree. Qed.
+Print Assumptions C15_decode_parts_models_agree.
+Theorem C15_public_key_hash_models_agree : forall s,
+  match Classify.public_key_hash s, public_key_hash s with
+  | Checked.Ok h, Ok h' => h = h'
+  | Checked.Err, Err _ => True
+  | _, _ => False
+  end.
+Proof. exact AuditD15.public_key_hash_models_agree. Qed.
+Print Assumptions C15_public_key_hash_models_agree.
+Theorem C15_is_p2pkh_models_agree : forall s, Classify.is_p2pkh s = Checked.Ok (is_p2pkh s).
+Proof. exact AuditD15.is_p2pkh_models_agree. Qed.
+Print Assumptions C15_is_p2pkh_models_agree.
+Theorem C15_push_data_prefix_models_agree : forall d,
+  push_data_prefix d = match Push.push_data_prefix d with Some p => Ok p | None => Err EPartTooBig end.
+Proof. exact AuditD15.push_data_prefix_models_agree. Qed.
+Print Assumptions C15_push_data_prefix_models_agree.
 
 (** non-vacuity: a concrete hash, its two addresses, the script; the spec really excludes the witness *)
 Example C15_example :
